@@ -16,15 +16,47 @@ What the translation relies on (trusted base of the source tie, together with Sp
   * every C declaration gets its own slot (no recursion, so re-entering a block just re-initialises it);
     declarations without initialiser are rejected;
   * pointer parameters are never modified and only used as `p[e]`, as memcpy/memset arguments, or compared
-    with 0; `memcpy`/`memset` are the C library functions (modelled as IR primitives with byte counts).
+    with 0; `memcpy`/`memset` are the C library functions (modelled as IR primitives with byte counts);
+    `memcpy(p, p, n)` (identical ranges: undefined behaviour in ISO C) is a no-op in the IR, partially
+    overlapping ranges are reported (`Err.overlap`);
+  * REJECTED although they look harmless, because the IR would compute something else than the compiled code:
+    a `double` used as a truth value (`if (x)`, `!x`, `x && y`, `x ? a : b`: the IR tests the bit pattern, wrong
+    for -0.0); a pointer cast that changes the element type (f64 cells are bit patterns in [0, 2^64), i64 cells
+    signed values) other than `uint8_t* -> int64_t*` for scratch bytes, casts from the opaque q120 element types
+    and the precomputation structs, integer elements to `__m256i*` / `__m128i*`, u64 <-> u32 views; a double
+    multiplication feeding `+` / `-` in a file compiled with -mfma (the compiler may fuse: one rounding);
+  * (q120 sources) local arrays live in consecutive slots and are only indexed with bounds checks; `static const`
+    locals are ordinary initialised locals; calls of `static inline` helpers in statement position are inlined
+    (arguments without side effects substituted for the parameters); a precomputation struct parameter is a buffer
+    of 64-bit cells laid out as the C struct (field offsets computed from the struct definition: every field is an
+    8-byte scalar or an array of them); pointer arithmetic / indices are computed in uint64 (a valid C object cannot
+    make them wrap); `uint32_t` views of a 64-bit cell are little endian.
+  * (FFT64 module layer: vec_znx_dft.c, scalar_vector_product.c, znx_small.c, vector_matrix_product.c -- ADDRESSING only)
+    - a `const MODULE*` parameter is the scalar `module->nn`, plus a second scalar `module->m` in the functions that
+      read it or pass the module to one that does (no invariant between the two is assumed);
+    - the arithmetic kernels (EXT_KERNELS: reim_from_znx64, reim_fft, reim_ifft, reim_to_znx64, reim_fftvec_mul,
+      reim_fftvec_addmul, reim4_*_ref) become `Stmt.extcall name scalars pointers`; their object argument must be
+      `module->mod.fft64.<the field of that kernel>` of this function's module (e.g. `reim_fft` given `p_ifft` is
+      rejected) and is dropped: the kernel semantics is the `ExtSem` parameter of the interpreter;
+    - VEC_ZNX_DFT / VEC_ZNX_BIG / SVP_PPOL / VMP_PMAT are blobs of 64-bit cells (only reached through casts to
+      double* / int64_t*); scratch bytes (`uint8_t*`) may be cast to `int64_t*` or `double*`;
+    - `memset(p + k, v, n)` / `memcpy` on pointer EXPRESSIONS are the same IR statements wrapped in a one-statement
+      callee (`.call (.memset 0 ty (.var 0) (.var 1)) 2 [v, n] [(p, k)]`);
+    - `p + x + y` is one offset `x + y` computed in uint64; `bytep + E * 8` (syntactic factor 8 or sizeof of an 8-byte
+      type) is the cell offset `(E * 8) >> 3` (exact, also when `E * 8` wraps); unsigned `x / 2^k` with a literal
+      divisor is `x >> k`.
 """
-import json, os, subprocess, sys
+import json
+import re, os, subprocess, sys
 
 VERIF = os.path.dirname(os.path.dirname(os.path.abspath(__file__)))
 REPO = os.environ.get("VERIF_REPO", "/repo")
 SRC = "spqlios/coeffs/coeffs_arithmetic.c"
 # every file a target function (or a function it calls) may be defined in
-SRCS = [SRC, "spqlios/arithmetic/vec_znx.c", "spqlios/coeffs/coeffs_arithmetic_avx.c", "spqlios/arithmetic/vec_znx_avx.c"]
+SRCS = [SRC, "spqlios/arithmetic/vec_znx.c", "spqlios/coeffs/coeffs_arithmetic_avx.c", "spqlios/arithmetic/vec_znx_avx.c",
+        "spqlios/q120/q120_arithmetic_ref.c", "spqlios/q120/q120_arithmetic_simple.c",
+        "spqlios/arithmetic/vec_znx_dft.c", "spqlios/arithmetic/scalar_vector_product.c", "spqlios/arithmetic/znx_small.c",
+        "spqlios/arithmetic/vector_matrix_product.c"]
 # per-file ISA flags (as in spqlios/CMakeLists.txt): the intrinsics need their target features to parse
 EXTRA_CFLAGS = {"spqlios/coeffs/coeffs_arithmetic_avx.c": ["-mavx2", "-mfma"],
                 "spqlios/arithmetic/vec_znx_avx.c": ["-mavx2", "-mfma"]}
@@ -53,14 +85,35 @@ TARGETS = [
     "znx_add_i64_avx", "znx_sub_i64_avx", "znx_negate_i64_avx",
     # limb-vector wrappers of spqlios/arithmetic/vec_znx_avx.c (they call the AVX kernels; copy / zero are the ref kernels)
     "vec_znx_add_avx", "vec_znx_sub_avx", "vec_znx_negate_avx",
+    # q120 reference arithmetic (spqlios/q120/q120_arithmetic_ref.c, q120_arithmetic_simple.c)
+    "q120_vec_mat1col_product_baa_ref", "q120_vec_mat1col_product_bbb_ref", "q120_vec_mat1col_product_bbc_ref",
+    "q120x2_vec_mat1col_product_bbc_ref", "q120x2_vec_mat2cols_product_bbc_ref",
+    "q120x2_extract_1blk_from_q120b_ref", "q120x2_extract_1blk_from_contiguous_q120b_ref", "q120x2b_save_1blk_to_q120b_ref",
+    "q120_add_bbb_simple", "q120_add_ccc_simple", "q120_c_from_b_simple", "q120_b_from_znx64_simple",
+    # addressing of the FFT64 module layer (arithmetic kernels = opaque `extcall`s)
+    "fft64_vec_znx_dft", "fft64_vec_znx_idft", "fft64_vec_znx_idft_tmp_a",
+    "fft64_svp_prepare_ref", "fft64_svp_apply_dft_ref", "fft64_znx_small_single_product",
+    "fft64_vmp_prepare_contiguous_ref", "fft64_vmp_apply_dft_to_dft_ref", "fft64_vmp_apply_dft_ref",
 ]
+
+# opaque kernels of the module layer: name -> (argument kinds, field of `module->mod.fft64` the object argument must be)
+#   'o' the precomputation object (dropped: the kernel semantics is a parameter of the interpreter, already specialised
+#   to the module), 's' uint64 scalar, 'p' pointer (cells)
+EXT_KERNELS = {
+    "reim_from_znx64": ("opp", "p_conv"), "reim_fft": ("op", "p_fft"), "reim_ifft": ("op", "p_ifft"),
+    "reim_to_znx64": ("opp", "p_reim_to_znx"), "reim_fftvec_mul": ("oppp", "mul_fft"),
+    "reim_fftvec_addmul": ("oppp", "p_addmul"),
+    "reim4_extract_1blk_from_reim_ref": ("sspp", None), "reim4_extract_1blk_from_contiguous_reim_ref": ("ssspp", None),
+    "reim4_vec_mat2cols_product_ref": ("sppp", None), "reim4_vec_mat1col_product_ref": ("sppp", None),
+    "reim4_save_1blk_to_reim_ref": ("sspp", None),
+}
 
 RET_TYMAP = {"uint64_t": "u64", "int64_t": "i64", "unsigned long": "u64", "long": "i64"}
 TYMAP = {"unsigned long": "u64", "long": "i64", "int": "i32", "unsigned int": "u32", "double": "f64",
          "unsigned long long": "u64", "long long": "i64"}
 RANGE = {"u64": (0, 2**64 - 1), "i64": (-2**63, 2**63 - 1), "u32": (0, 2**32 - 1), "i32": (-2**31, 2**31 - 1)}
 SIZEOF = {"u64": 8, "i64": 8, "u32": 4, "i32": 4, "f64": 8, "u8": 1, "v4": 32, "v2": 16}
-ARITH = {"+": "add", "-": "sub", "*": "mul", "&": "band", "|": "bor", "^": "bxor", "<<": "shl", ">>": "shr"}
+ARITH = {"+": "add", "-": "sub", "*": "mul", "&": "band", "|": "bor", "^": "bxor", "<<": "shl", ">>": "shr", "%": "mod"}
 CMP = {"<": "lt", "<=": "le", ">": "gt", ">=": "ge", "==": "eq", "!=": "ne"}
 
 
@@ -135,6 +188,151 @@ def ptr_elem_ty(q):
     return TYMAP[e]
 
 
+
+# ------------------------------------------------------------------ generalised pointers / arrays (q120 sources)
+# opaque element types: only ever used through a cast to `uint64_t*` / `uint32_t*` (a blob of 64-bit cells)
+OPAQUE_ELEMS = {"q120a", "q120b", "q120c", "q120x2b", "q120x2c",
+                "struct _q120a", "struct _q120b", "struct _q120c", "struct _q120x2b", "struct _q120x2c",
+                # objects of the FFT64 module layer: blobs of 64-bit cells, only reached through casts to double* / int64_t*
+                "VEC_ZNX_DFT", "VEC_ZNX_BIG", "SVP_PPOL", "VMP_PMAT",
+                "struct vec_znx_dft_t", "struct vec_znx_bigcoeff_t", "struct svp_ppol_t", "struct vmp_pmat_t"}
+ELEM_NAMES = {"uint64_t": "u64", "unsigned long": "u64", "unsigned long long": "u64", "int64_t": "i64", "long": "i64",
+              "long long": "i64", "uint32_t": "u32", "unsigned int": "u32", "double": "f64"}
+_STRUCTS = {}
+
+
+def norm_elem(e):
+    e = " ".join(t for t in e.split() if t != "const")
+    if e in ELEM_NAMES:
+        return ELEM_NAMES[e]
+    if e in OPAQUE_ELEMS:
+        return "opaque"
+    if e.startswith("q120_mat1col_product_") or e.startswith("struct _q120_mat1col_product_"):
+        return "struct:" + e.replace("struct _", "")
+    raise Unsupported(f"element type '{e}'")
+
+
+def parse_ctype(q):
+    """type string of a pointer / array / scalar: ('ptr', elem, dims of the pointee) | ('arr', elem, dims) |
+    ('scalar', elem, [])"""
+    q = q.strip()
+    m = re.match(r"^(.*?)\(\*\s*(?:const)?\s*\)((?:\[\d+\])+)$", q)
+    if m:
+        return ("ptr", norm_elem(m.group(1)), [int(x) for x in re.findall(r"\[(\d+)\]", m.group(2))])
+    m = re.match(r"^([^\[\(\*]*?)((?:\[\d+\])+)$", q)
+    if m:
+        return ("arr", norm_elem(m.group(1)), [int(x) for x in re.findall(r"\[(\d+)\]", m.group(2))])
+    q2 = strip_ptr_const(q)
+    if q2.endswith("*"):
+        inner = q2[:-1].strip()
+        if inner.endswith("*"):
+            raise Unsupported(f"pointer to pointer '{q}'")
+        return ("ptr", norm_elem(inner), [])
+    return ("scalar", norm_elem(q), [])
+
+
+def prod(xs):
+    r = 1
+    for x in xs:
+        r *= x
+    return r
+
+
+def is_ptr_or_arrptr(q):
+    q = q.strip()
+    return strip_ptr_const(q).endswith("*") or re.search(r"\(\*\s*(?:const)?\s*\)(?:\[\d+\])+$", q) is not None
+
+
+def is_array_type(q):
+    return re.match(r"^[^\[\(\*]*?(?:\[\d+\])+$", q.strip()) is not None
+
+
+def load_struct(name):
+    """cell offsets of the fields of a precomputation struct (all fields are 8-byte scalars or arrays of them)"""
+    if name in _STRUCTS:
+        return _STRUCTS[name]
+    rec = "_" + name
+    found = None
+    for src in SRCS:
+        path = os.path.join(REPO, src)
+        if not os.path.exists(path):
+            continue
+        cmd = [CLANG] + CFLAGS + EXTRA_CFLAGS.get(src, []) + ["-I" + REPO, "-fsyntax-only", "-Xclang", "-ast-dump=json",
+                                                              "-Xclang", f"-ast-dump-filter={rec}", path]
+        r = subprocess.run(cmd, capture_output=True, text=True)
+        if r.returncode != 0:
+            continue
+        dec = json.JSONDecoder()
+        t, i = r.stdout, 0
+        while True:
+            while i < len(t) and t[i].isspace():
+                i += 1
+            if i >= len(t):
+                break
+            d, i = dec.raw_decode(t, i)
+            if d.get("kind") == "RecordDecl" and d.get("name") == rec and d.get("completeDefinition"):
+                found = d
+        if found:
+            break
+    if not found:
+        raise Unsupported(f"struct '{name}': definition not found")
+    off, fields = 0, {}
+    for f in found.get("inner", []):
+        if f.get("kind") != "FieldDecl":
+            continue
+        kind, elem, dims = parse_ctype(qual(f))
+        if kind == "ptr" or elem not in ("u64", "i64", "f64"):
+            raise Unsupported(f"struct '{name}': field '{f.get('name')}' is not made of 8-byte scalars")
+        n = prod(dims) if kind == "arr" else 1
+        fields[f["name"]] = (off, n)
+        off += n
+    _STRUCTS[name] = fields
+    return fields
+
+
+def oadd(a, b):
+    """sum of two offsets (python int = literal, str = IR expression of type u64)"""
+    if isinstance(a, int) and isinstance(b, int):
+        return a + b
+    if a == 0:
+        return b
+    if b == 0:
+        return a
+    return f"(.bin .add .u64 {ostr(a)} {ostr(b)})"
+
+
+def omul(a, c):
+    if isinstance(a, int):
+        return a * c
+    if c == 1:
+        return a
+    return f"(.bin .mul .u64 {a} (.lit {c}))"
+
+
+def ostr(a):
+    return f"(.lit {a})" if isinstance(a, int) else a
+
+def needs_module_m(n):
+    """does the function read `module->m`, or call an already translated function that takes it?"""
+    if isinstance(n, dict):
+        if n.get("kind") == "MemberExpr" and n.get("name") == "m" and n.get("isArrow"):
+            b = n["inner"][0]
+            while b.get("kind") in ("ParenExpr", "ImplicitCastExpr"):
+                b = b["inner"][0]
+            q = b.get("type", {}).get("qualType", "")
+            if "MODULE" in q or "module_info_t" in q:
+                return True
+        if n.get("kind") == "CallExpr":
+            c = n["inner"][0]
+            while c.get("kind") in ("ImplicitCastExpr", "ParenExpr"):
+                c = c["inner"][0]
+            f = REGISTRY.get(c.get("referencedDecl", {}).get("name"))
+            if f is not None and ("M",) in f.params:
+                return True
+        return any(needs_module_m(c) for c in n.get("inner", []))
+    return False
+
+
 class FnTranslator:
     def __init__(self, name, decl):
         self.name = name
@@ -152,9 +350,15 @@ class FnTranslator:
         self.pslots = {}     # decl id of a pointer local -> first of its two slots
         self.params = []     # kinds of the parameters in C order: ("s", ty) | ("p", ty) | ("m",)
         self.module_ids = set()   # decl ids of `const MODULE*` parameters (slot holds module->nn)
+        self.module_m_ids = set()  # … of those whose next slot holds module->m (functions that read it, or pass the module
+                                   # to a function that does)
         self.calls = []      # names of the translated functions this one calls
         self.inline = []     # stack of {param decl id -> translated argument} for inlined expression functions
         self.inline_depth = 0
+        # generalised pointers (q120 sources)
+        self.arrays = {}     # decl id of a local array -> (first slot, number of slots)
+        self.pslot_elem = {}  # decl id of a pointer local declared through the general path -> element kind
+        self.param_elem = {}  # pointer index -> 'opaque' | 'struct:<name>' (parameters registered through the general path)
 
     def err(self, n, msg):
         raise Unsupported(f"{self.name}: {msg} [{n.get('kind')}] at {where(n)}")
@@ -170,7 +374,10 @@ class FnTranslator:
     def ptr_ref(self, n):
         """n must denote the (r)value of a pointer parameter; returns its index"""
         k = n.get("kind")
-        if k == "ImplicitCastExpr" and n.get("castKind") in ("LValueToRValue", "BitCast", "NoOp"):
+        if k in ("ImplicitCastExpr", "CStyleCastExpr") and n.get("castKind") == "BitCast":
+            self.check_ptr_cast(n, n["inner"][0])
+            return self.ptr_ref(n["inner"][0])
+        if k == "ImplicitCastExpr" and n.get("castKind") in ("LValueToRValue", "NoOp"):
             return self.ptr_ref(n["inner"][0])
         if k == "ParenExpr":
             return self.ptr_ref(n["inner"][0])
@@ -179,6 +386,56 @@ class FnTranslator:
             if rid in self.ptrs and rid not in self.byte_ptrs:
                 return self.ptrs[rid]
         self.err(n, "pointer expression that is not a (64-bit element) pointer parameter")
+
+    def check_ptr_cast(self, n, c):
+        """pointer BitCast `c -> n`: the cells of different element types have different representations (f64 = bit
+        pattern in [0, 2^64), i64 = signed value, u64 = value in [0, 2^64)), so a cast may not change the element type.
+        Accepted: to `void*` (memcpy / memset arguments), from an opaque q120 element or a precomputation struct,
+        `uint8_t* -> int64_t*` / `double*` (scratch bytes used as cells), an integer element to a vector type, between the unsigned views u64 / u32."""
+        def elem(q):
+            q = strip_ptr_const(q).strip()
+            if not q.endswith("*") and "(*" not in q:
+                self.err(n, f"pointer cast involving the non-pointer type '{q}'")
+            base = re.sub(r"\(\*\s*(?:const)?\s*\)(?:\[\d+\])+$", "", q)
+            base = base[:-1].strip() if base.endswith("*") else base.strip()
+            base = " ".join(t for t in base.split() if t != "const")
+            if base == "void":
+                return "void"
+            if base in ("uint8_t", "unsigned char"):
+                return "u8"
+            if base in VEC_CELLS:
+                return "vec"
+            try:
+                return norm_elem(base)
+            except Unsupported:
+                self.err(n, f"pointer cast involving '{base}'")
+        to, frm = elem(qual(n)), elem(qual(c))
+        ok = (to == frm or to == "void" or frm == "opaque" or frm.startswith("struct:") or to == "opaque"
+              or (frm == "u8" and to in ("i64", "f64")) or (to == "vec" and frm in ("i64", "u64", "vec"))
+              or {to, frm} <= {"u64", "u32"})
+        if not ok:
+            self.err(n, f"pointer cast that changes the element type ({frm} -> {to})")
+
+    def bool_operand(self, n, what):
+        """operand used as a truth value: a `double` is rejected (the IR tests `pattern != 0`, wrong for -0.0)"""
+        if not self.is_ptr(n) and scalar_ty(n, what) == "f64":
+            self.err(n, f"double used as a truth value ({what})")
+
+    def cond(self, n):
+        self.bool_operand(n, "condition")
+        return self.expr(n)
+
+    def fma_hazard(self, n, a, b):
+        """`x*y + z` on doubles in a file compiled with -mfma: the compiler may fuse (one rounding), the IR would round
+        twice"""
+        flags = EXTRA_CFLAGS.get(self.decl.get("_src", ""), [])
+        if "-mfma" not in flags:
+            return
+        for c in (a, b):
+            while c.get("kind") in ("ParenExpr", "ImplicitCastExpr") and c.get("castKind", "NoOp") in ("NoOp", "LValueToRValue"):
+                c = c["inner"][0]
+            if c.get("kind") == "BinaryOperator" and c.get("opcode") == "*" and scalar_ty(c, "operand") == "f64":
+                self.err(n, "double multiplication feeding an addition in a file compiled with -mfma (possible fused multiply-add)")
 
     def is_null_const(self, n):
         if n.get("kind") == "ImplicitCastExpr" and n.get("castKind") == "NullToPointer":
@@ -189,7 +446,17 @@ class FnTranslator:
         return False
 
     def is_ptr(self, n):
-        return strip_ptr_const(qual(n)).endswith("*")
+        return is_ptr_or_arrptr(qual(n))
+
+    def old_style_base(self, base):
+        """`p[i]` with `p` a pointer parameter registered with an 8-byte scalar element type (original path)"""
+        c = base
+        while c.get("kind") in ("ParenExpr", "ImplicitCastExpr") and c.get("castKind", "NoOp") in ("NoOp", "LValueToRValue"):
+            c = c["inner"][0]
+        if c.get("kind") != "DeclRefExpr":
+            return False
+        rid = c["referencedDecl"]["id"]
+        return rid in self.ptrs and self.ptrs[rid] not in self.param_elem and not (self.inline and rid in self.inline[-1])
 
     def expr(self, n):
         k = n.get("kind")
@@ -226,6 +493,8 @@ class FnTranslator:
             op = n["opcode"]
             if op in ("-", "~", "!"):
                 c = n["inner"][0]
+                if op == "!":
+                    self.bool_operand(c, "operand of !")
                 t = scalar_ty(c, "operand")
                 if op != "!" and scalar_ty(n, "result") != t:
                     self.err(n, "unary operator whose result type differs from its operand type")
@@ -250,6 +519,17 @@ class FnTranslator:
                 else:
                     e = f"(.ptrEq {pa[0]} {pa[1]} {pb[0]} {pb[1]})"
                 return e if op == "==" else f"(.un .lnot .i32 {e})"
+            if op == "/":
+                # unsigned `x / 2^k` with a literal divisor: exactly `x >> k`
+                t = scalar_ty(n, "result")
+                d = b
+                while d.get("kind") in ("ParenExpr", "ImplicitCastExpr") and d.get("castKind", "IntegralCast") == "IntegralCast":
+                    d = d["inner"][0]
+                if (t in ("u64", "u32") and scalar_ty(a, "operand") == t and scalar_ty(b, "operand") == t
+                        and d.get("kind") == "IntegerLiteral" and int(d["value"]) > 0
+                        and int(d["value"]) & (int(d["value"]) - 1) == 0):
+                    return f"(.bin .shr .{t} {self.expr(a)} (.lit {int(d['value']).bit_length() - 1}))"
+                self.err(n, "division other than an unsigned division by a literal power of two")
             if op in ARITH:
                 t = scalar_ty(n, "result")
                 ta, tb = scalar_ty(a, "operand"), scalar_ty(b, "operand")
@@ -260,8 +540,14 @@ class FnTranslator:
                         self.err(n, "shift of double")
                 elif not (ta == t and tb == t):
                     self.err(n, f"operands {ta},{tb} do not have the result type {t}")
-                if op in ("&", "|", "^") and t not in ("u64", "u32"):
+                if op in ("|", "^") and t not in ("u64", "u32"):
                     self.err(n, f"bitwise '{op}' on the signed type {t}")
+                if op == "&" and t not in ("u64", "u32", "i64", "i32"):
+                    self.err(n, f"bitwise '&' on the type {t}")
+                if op == "%" and t not in ("u64", "u32"):
+                    self.err(n, f"'%' on the type {t} (only unsigned operands are supported)")
+                if t == "f64" and op in ("+", "-"):
+                    self.fma_hazard(n, a, b)
                 return f"(.bin .{ARITH[op]} .{t} {self.expr(a)} {self.expr(b)})"
             if op in CMP:
                 ta, tb = scalar_ty(a, "operand"), scalar_ty(b, "operand")
@@ -270,6 +556,9 @@ class FnTranslator:
                 if ta == "f64":
                     self.err(n, "comparison of doubles")
                 return f"(.bin .{CMP[op]} .{ta} {self.expr(a)} {self.expr(b)})"
+            if op in ("&&", "||"):
+                self.bool_operand(a, f"operand of {op}")
+                self.bool_operand(b, f"operand of {op}")
             if op == "&&":
                 return f"(.land {self.expr(a)} {self.expr(b)})"
             if op == "||":
@@ -281,6 +570,7 @@ class FnTranslator:
             self.err(n, "member access outside an rvalue read")
         if k == "ConditionalOperator":
             c, a, b = n["inner"]
+            self.bool_operand(c, "condition of ?:")
             if scalar_ty(a, "operand") != scalar_ty(b, "operand"):
                 self.err(n, "?: with operands of different types")
             return f"(.cond {self.expr(c)} {self.expr(a)} {self.expr(b)})"
@@ -344,7 +634,15 @@ class FnTranslator:
                 return self.pexpr(c, cast8)
             if ck == "BitCast":
                 # `(int64_t*)tmp_space` with `uint8_t* tmp_space`: the byte pointer is used as a cell pointer
-                to = ptr_elem_ty(qual(n))
+                self.check_ptr_cast(n, c)
+                if strip_cv(strip_ptr_const(qual(n))[:-1].strip()) == "void":
+                    return self.pexpr(c, True)      # argument of a `void*` parameter: the same cells
+                try:
+                    to = ptr_elem_ty(qual(n))
+                except Unsupported:
+                    if parse_ctype(qual(n))[1] != "opaque":
+                        raise
+                    to = "u64"                      # cast to an opaque module object: the same cells
                 if SIZEOF[to] % 8 != 0:
                     self.err(n, "pointer cast to an element type that is not a whole number of 64-bit cells")
                 return self.pexpr(c, True)
@@ -367,15 +665,263 @@ class FnTranslator:
                 a, b = b, a
             if not self.is_ptr(a) or self.is_ptr(b):
                 self.err(n, "pointer addition form")
-            base, off = self.pexpr(a)
-            if off != "(.lit 0)":
-                self.err(n, "nested pointer arithmetic")
-            if SIZEOF[ptr_elem_ty(qual(a))] != 8:
-                self.err(n, "arithmetic on a pointer whose element is not 8 bytes wide (only ++/-- is supported there)")
+            base, off = self.pexpr(a, cast8)
             if scalar_ty(b, "pointer offset") == "f64":
                 self.err(n, "non-integer pointer offset")
-            return (base, self.expr(b))
+            lit = b
+            while lit.get("kind") in ("ParenExpr", "ImplicitCastExpr") and lit.get("castKind", "IntegralCast") == "IntegralCast":
+                lit = lit["inner"][0]
+            nonneg_lit = lit.get("kind") == "IntegerLiteral" and int(lit["value"]) >= 0
+            if (off != "(.lit 0)" or ptr_elem_ty(qual(a)) == "u8") and scalar_ty(b, "pointer offset") != "u64" and not nonneg_lit:
+                self.err(n, "nested / byte pointer arithmetic with an offset that is not a uint64_t")
+            if ptr_elem_ty(qual(a)) == "u8":
+                # `bytep + E * 8` (or `E * sizeof(double)`): a whole number of cells; the cell offset is the byte
+                # offset shifted right by 3 (exact: the byte offset is a multiple of 8 also after wrapping)
+                m = b
+                while m.get("kind") == "ParenExpr":
+                    m = m["inner"][0]
+                eight = False
+                if m.get("kind") == "BinaryOperator" and m.get("opcode") == "*":
+                    for f_ in m["inner"]:
+                        while f_.get("kind") in ("ParenExpr", "ImplicitCastExpr") and f_.get("castKind", "IntegralCast") == "IntegralCast":
+                            f_ = f_["inner"][0]
+                        if f_.get("kind") == "IntegerLiteral" and int(f_["value"]) == 8:
+                            eight = True
+                        if f_.get("kind") == "UnaryExprOrTypeTraitExpr" and self.expr(f_) == "(.lit 8)":
+                            eight = True
+                if not eight:
+                    self.err(n, "byte pointer plus an offset that is not syntactically a multiple of 8")
+                o2 = f"(.bin .shr .u64 {self.expr(b)} (.lit 3))"
+            elif SIZEOF[ptr_elem_ty(qual(a))] != 8:
+                self.err(n, "arithmetic on a pointer whose element is not 8 bytes wide (only ++/-- is supported there)")
+            else:
+                o2 = f"(.lit {int(lit['value'])})" if nonneg_lit else self.expr(b)
+            if off == "(.lit 0)":
+                return (base, o2)
+            # `p + x + y`: one offset, added in uint64 (as the address computation does)
+            return (base, f"(.bin .add .u64 {off} {o2})")
         self.err(n, "pointer expression")
+
+
+    # ------------------------------------------------------------------ generalised pointer values
+    # A pointer value is {"k": "mem", "base": PBase string, "off": offset, "unit": 8 | 4} (offset counted in
+    # `unit`-byte elements from the cell-aligned base) or {"k": "slots", "base": first slot, "len": n, "off": offset}
+    # (a local array); offsets are python ints (literals) or IR expressions of type u64.
+    def gidx(self, n):
+        c = n
+        while c.get("kind") in ("ParenExpr", "ImplicitCastExpr") and c.get("castKind", "IntegralCast") in ("IntegralCast", "NoOp"):
+            c = c["inner"][0]
+        if c.get("kind") == "IntegerLiteral":
+            v = int(c["value"])
+            if v < 0:
+                self.err(n, "negative literal index")
+            return v
+        t = scalar_ty(n, "index")
+        if t == "f64":
+            self.err(n, "non-integer index")
+        e = self.expr(n)
+        return e if t == "u64" else f"(.cast .u64 {e})"
+
+    def struct_of(self, n):
+        """n: pointer rvalue to a precomputation struct -> (pointer index, struct name)"""
+        c = n
+        while c.get("kind") in ("ParenExpr", "ImplicitCastExpr") and c.get("castKind", "NoOp") in ("NoOp", "LValueToRValue"):
+            c = c["inner"][0]
+        if c.get("kind") == "DeclRefExpr":
+            rid = c["referencedDecl"]["id"]
+            if self.inline and rid in self.inline[-1] and isinstance(self.inline[-1][rid], dict) \
+                    and self.inline[-1][rid].get("k") == "struct":
+                return self.inline[-1][rid]["p"], self.inline[-1][rid]["name"]
+            if rid in self.ptrs and self.param_elem.get(self.ptrs[rid], "").startswith("struct:"):
+                return self.ptrs[rid], self.param_elem[self.ptrs[rid]][len("struct:"):]
+        self.err(n, "struct pointer that is not a precomputation parameter")
+
+    def retarget(self, n, p, q):
+        """pointer value `p` seen through the pointer type `q`"""
+        kind, elem, _ = parse_ctype(q)
+        if kind != "ptr":
+            self.err(n, "cast to a non-pointer type")
+        if elem == "opaque" or elem.startswith("struct:"):
+            return p
+        unit = 4 if elem == "u32" else 8
+        if p["k"] == "slots":
+            if unit != 8:
+                self.err(n, "local array seen through a 32-bit pointer")
+            return p
+        if p["unit"] == unit:
+            return p
+        if p["unit"] == 8 and unit == 4:
+            return dict(p, unit=4, off=omul(p["off"], 2))
+        if isinstance(p["off"], int) and p["off"] % 2 == 0:
+            return dict(p, unit=8, off=p["off"] // 2)
+        self.err(n, "cast of a 32-bit element pointer with a non-constant offset to a 64-bit element pointer")
+
+    def pv(self, n):
+        """pointer-valued rvalue, or lvalue of array type -> pointer value of its first element"""
+        k = n.get("kind")
+        if k == "ParenExpr":
+            return self.pv(n["inner"][0])
+        if self.is_null_const(n):
+            return {"k": "mem", "base": ".null", "off": 0, "unit": 8}
+        if k in ("ImplicitCastExpr", "CStyleCastExpr"):
+            ck = n.get("castKind")
+            c = n["inner"][0]
+            if ck in ("NoOp", "ArrayToPointerDecay"):
+                return self.pv(c)
+            if ck == "BitCast":
+                self.check_ptr_cast(n, c)
+                return self.retarget(n, self.pv(c), qual(n))
+            if ck == "LValueToRValue":
+                while c.get("kind") == "ParenExpr":
+                    c = c["inner"][0]
+                if c.get("kind") == "DeclRefExpr":
+                    rid = c["referencedDecl"]["id"]
+                    if self.inline and rid in self.inline[-1]:
+                        v = self.inline[-1][rid]
+                        if isinstance(v, dict) and v.get("k") in ("mem", "slots"):
+                            return dict(v)
+                        self.err(c, "inlined parameter used as a pointer")
+                    if rid in self.ptrs:
+                        pi = self.ptrs[rid]
+                        if rid in self.byte_ptrs:
+                            self.err(c, "byte pointer in a general pointer expression")
+                        kind, elem, dims = parse_ctype(qual(c))
+                        return {"k": "mem", "base": f"(.param {pi})", "off": 0, "unit": 4 if elem == "u32" else 8}
+                    if rid in self.pslots:
+                        elem = self.pslot_elem.get(rid, "u64")
+                        return {"k": "mem", "base": f"(.pvar {self.pslots[rid]})", "off": 0, "unit": 4 if elem == "u32" else 8}
+                self.err(c, "pointer value that is not a pointer parameter or pointer local")
+            self.err(n, f"pointer cast kind {ck}")
+        if k == "DeclRefExpr":     # lvalue of array type
+            rid = n["referencedDecl"]["id"]
+            if self.inline and rid in self.inline[-1]:
+                v = self.inline[-1][rid]
+                if isinstance(v, dict) and v.get("k") in ("mem", "slots"):
+                    return dict(v)
+            if rid in self.arrays:
+                b, ln = self.arrays[rid]
+                return {"k": "slots", "base": b, "len": ln, "off": 0}
+            self.err(n, "array that is not a local array")
+        if k == "MemberExpr":      # array field of a precomputation struct
+            if not n.get("isArrow"):
+                self.err(n, "member access with '.'")
+            pi, sname = self.struct_of(n["inner"][0])
+            fields = load_struct(sname)
+            if n.get("name") not in fields:
+                self.err(n, f"unknown field '{n.get('name')}'")
+            return {"k": "mem", "base": f"(.param {pi})", "off": fields[n["name"]][0], "unit": 8}
+        if k == "ArraySubscriptExpr":   # element that is itself an array (row of a 2-d array / array pointer)
+            base, idx = n["inner"]
+            p = self.pv(base)
+            kind, elem, dims = parse_ctype(qual(n))
+            stride = prod(dims) if kind == "arr" else 1
+            return dict(p, off=oadd(p["off"], omul(self.gidx(idx), stride)))
+        if k == "BinaryOperator" and n["opcode"] == "+":
+            a, b = n["inner"]
+            if is_ptr_or_arrptr(qual(b)) and not is_ptr_or_arrptr(qual(a)):
+                a, b = b, a
+            p = self.pv(a)
+            kind, elem, dims = parse_ctype(qual(a))
+            return dict(p, off=oadd(p["off"], omul(self.gidx(b), prod(dims))))
+        self.err(n, "pointer expression (general form)")
+
+    def elem_lv(self, c):
+        """scalar lvalue `a[i]` / `p->f`: pointer value of the element and its scalar type"""
+        k = c.get("kind")
+        if k == "ArraySubscriptExpr":
+            base, idx = c["inner"]
+            p = self.pv(base)
+            et = scalar_ty(c, "element")
+            if p["k"] == "mem" and ((p["unit"] == 4) != (et in ("u32",))):
+                self.err(c, "element width differs from the pointer's element width")
+            if et not in ("u64", "i64", "u32"):
+                self.err(c, f"element type {et}")
+            if p["k"] == "slots" and et != "u64":
+                self.err(c, "local array of a type other than uint64_t")
+            return dict(p, off=oadd(p["off"], self.gidx(idx))), et
+        if k == "MemberExpr":
+            if not c.get("isArrow"):
+                self.err(c, "member access with '.'")
+            pi, sname = self.struct_of(c["inner"][0])
+            fields = load_struct(sname)
+            if c.get("name") not in fields or fields[c["name"]][1] != 1:
+                self.err(c, f"scalar field '{c.get('name')}'")
+            return {"k": "mem", "base": f"(.param {pi})", "off": fields[c["name"]][0], "unit": 8}, scalar_ty(c, "field")
+        self.err(c, "element lvalue")
+
+    def read_elem(self, p):
+        if p["k"] == "slots":
+            return f"(.avar {p['base']} {p['len']} {ostr(p['off'])})"
+        if p["unit"] == 4:
+            return f"(.pload32 {p['base']} {ostr(p['off'])})"
+        return f"(.pload {p['base']} {ostr(p['off'])})"
+
+    def write_elem(self, p, e):
+        if p["k"] == "slots":
+            return ("aset", p["base"], p["len"], ostr(p["off"]), e)
+        if p["unit"] == 4:
+            return ("pstore32", p["base"], ostr(p["off"]), e)
+        return ("pstore", p["base"], ostr(p["off"]), e)
+
+    def flat_init(self, n, dims):
+        """initialiser list of an array with dimensions `dims`, flattened, missing elements = 0"""
+        total = prod(dims)
+        if n is None or n.get("kind") == "ImplicitValueInitExpr":
+            return ["(.lit 0)"] * total
+        if n.get("kind") != "InitListExpr":
+            self.err(n, "array initialiser")
+        out = []
+        for c in n.get("inner", []):
+            if len(dims) == 1:
+                out.append(self.expr(c))
+            else:
+                out += self.flat_init(c, dims[1:])
+        if len(out) > total:
+            self.err(n, "too many initialisers")
+        return out + ["(.lit 0)"] * (total - len(out))
+
+    def inline_stmt_call(self, n, fname):
+        """call, as a statement, of a `static inline` helper of the same file: its body is translated in place with
+        the (side-effect free) arguments substituted for the parameters"""
+        if self.inline_depth > 8:
+            self.err(n, "inlining too deep (recursion?)")
+        try:
+            d = load_ast(fname)
+        except Unsupported as e:
+            self.err(n, f"call of '{fname}' ({e})")
+        params = [c for c in d["inner"] if c.get("kind") == "ParmVarDecl"]
+        bodies = [c for c in d["inner"] if c.get("kind") == "CompoundStmt"]
+        args = n["inner"][1:]
+        if len(params) != len(args) or len(bodies) != 1:
+            self.err(n, f"call of '{fname}': arity")
+        if d["type"]["qualType"].split("(")[0].strip() != "void":
+            self.err(n, f"call of the non-void function '{fname}' as a statement")
+        sub = {}
+        for prm, arg in zip(params, args):
+            q = qual(prm)
+            if is_ptr_or_arrptr(q):
+                kind, elem, dims = parse_ctype(q)
+                if elem.startswith("struct:"):
+                    pi, sname = self.struct_of(arg)
+                    sub[prm["id"]] = {"k": "struct", "p": pi, "name": sname}
+                else:
+                    sub[prm["id"]] = self.retarget(arg, self.pv(arg), q)
+            else:
+                if scalar_ty(prm, "parameter") != scalar_ty(arg, "argument"):
+                    self.err(n, f"call of '{fname}': argument type differs from the parameter type")
+                sub[prm["id"]] = self.expr(arg)
+        self.inline.append(sub)
+        self.inline_depth += 1
+        saved_name, saved_ret = self.name, self.ret_slot
+        try:
+            self.name = f"{saved_name} (inlined {fname})"
+            self.no_return = getattr(self, "no_return", 0) + 1
+            return self.stmt(bodies[0]) or ("skip",)
+        finally:
+            self.no_return -= 1
+            self.name = saved_name
+            self.inline.pop()
+            self.inline_depth -= 1
 
     def callee_name(self, n):
         callee = n["inner"][0]
@@ -420,17 +966,26 @@ class FnTranslator:
             if (c.get("name") == "nn" and c.get("isArrow") and base.get("kind") == "DeclRefExpr"
                     and base["referencedDecl"]["id"] in self.module_ids):
                 return f"(.var {self.slots[base['referencedDecl']['id']]})"
-            self.err(c, "member access other than `module->nn`")
+            if (c.get("name") == "m" and c.get("isArrow") and base.get("kind") == "DeclRefExpr"
+                    and base["referencedDecl"]["id"] in self.module_m_ids):
+                return f"(.var {self.slots[base['referencedDecl']['id']] + 1})"
+            p, _ = self.elem_lv(c)      # scalar field of a precomputation struct
+            return self.read_elem(p)
         if k == "DeclRefExpr":
             rid = c["referencedDecl"]["id"]
             if self.inline and rid in self.inline[-1]:
+                if not isinstance(self.inline[-1][rid], str):
+                    self.err(c, "pointer parameter of an inlined function read as a scalar")
                 return self.inline[-1][rid]
             if rid in self.slots and rid not in self.module_ids:
                 return f"(.var {self.slots[rid]})"
             self.err(c, f"read of '{c['referencedDecl'].get('name')}' which is not a scalar parameter/local")
         if k == "ArraySubscriptExpr":
-            p, i = self.subscript(c)
-            return f"(.load {p} {i})"
+            if self.old_style_base(c["inner"][0]):
+                p, i = self.subscript(c)
+                return f"(.load {p} {i})"
+            p, _ = self.elem_lv(c)
+            return self.read_elem(p)
         self.err(c, "lvalue")
 
     def subscript(self, c):
@@ -468,8 +1023,11 @@ class FnTranslator:
             s = self.slots[rid]
             return ("assign", s, rhs_of(f"(.var {s})"))
         if k == "ArraySubscriptExpr":
-            p, i = self.subscript(lhs)
-            return ("store", p, i, rhs_of(f"(.load {p} {i})"))
+            if self.old_style_base(lhs["inner"][0]):
+                p, i = self.subscript(lhs)
+                return ("store", p, i, rhs_of(f"(.load {p} {i})"))
+            p, _ = self.elem_lv(lhs)
+            return self.write_elem(p, rhs_of(self.read_elem(p)))
         self.err(lhs, "assignment target")
 
     def effect(self, n):
@@ -493,6 +1051,17 @@ class FnTranslator:
             return self.assign_to(lhs, lambda _rd: r)
         if k == "BinaryOperator" and n["opcode"] == ",":
             return self.seq([self.effect(c) for c in n["inner"]])
+        if k == "CompoundAssignOperator" and n["opcode"] == "+=" and self.is_ptr(n["inner"][0]):
+            lhs, rhs = n["inner"]
+            while lhs.get("kind") == "ParenExpr":
+                lhs = lhs["inner"][0]
+            if lhs.get("kind") != "DeclRefExpr" or lhs["referencedDecl"]["id"] not in self.pslots:
+                self.err(n, "+= on a pointer that is not a pointer local")
+            kind, elem, dims = parse_ctype(qual(lhs))
+            if elem not in ("u64", "i64", "f64"):
+                self.err(n, "+= on a pointer whose element is not 8 bytes wide")
+            s0 = self.pslots[lhs["referencedDecl"]["id"]]
+            return ("passign", s0, f"(.pvar {s0})", ostr(omul(self.gidx(rhs), prod(dims))))
         if k == "CompoundAssignOperator":
             op = n["opcode"][:-1]
             if op not in ARITH:
@@ -510,8 +1079,12 @@ class FnTranslator:
                 self.err(n, "compound assignment operand type")
             if op in ("&", "|", "^") and tc not in ("u64", "u32"):
                 self.err(n, f"bitwise '{op}' on the signed type {tc}")
+            if op == "%" and tc not in ("u64", "u32"):
+                self.err(n, f"'%=' on the type {tc}")
             if "f64" in (tl, tc) and tl != tc:
                 self.err(n, "compound assignment mixing double and integer")
+            if tc == "f64" and op in ("+", "-"):
+                self.fma_hazard(n, lhs, rhs)
             r = self.expr(rhs)
 
             def rhs_of(rd):
@@ -544,15 +1117,58 @@ class FnTranslator:
             fname = callee.get("referencedDecl", {}).get("name")
             args = n["inner"][1:]
             if fname == "memcpy" and len(args) == 3:
-                d, s = self.ptr_ref(args[0]), self.ptr_ref(args[1])
                 if scalar_ty(args[2], "byte count") != "u64":
                     self.err(n, "memcpy byte count type")
+                try:
+                    d, s = self.ptr_ref(args[0]), self.ptr_ref(args[1])
+                except Unsupported:
+                    # destination / source are pointer expressions: the same `memcpy` statement on the two pointer
+                    # parameters of a one-statement callee (body `.memcpy 0 1 (.var 0)`)
+                    (bd, od), (bs, os_) = self.pexpr(args[0]), self.pexpr(args[1])
+                    return ("rawcall", "(.memcpy 0 1 (.var 0))", 1, [self.expr(args[2])], [f"({bd}, {od})", f"({bs}, {os_})"])
                 return ("memcpy", d, s, self.expr(args[2]))
             if fname == "memset" and len(args) == 3:
-                d = self.ptr_ref(args[0])
                 if scalar_ty(args[2], "byte count") != "u64" or scalar_ty(args[1], "value") != "i32":
                     self.err(n, "memset argument types")
+                try:
+                    d = self.ptr_ref(args[0])
+                except Unsupported:
+                    # `memset(p + k, v, n)`: the `memset` statement on the pointer parameter of a one-statement callee
+                    a0 = args[0]
+                    while a0.get("kind") in ("ImplicitCastExpr", "ParenExpr") and a0.get("castKind", "BitCast") in ("BitCast", "NoOp"):
+                        a0 = a0["inner"][0]
+                    et = ptr_elem_ty(qual(a0))
+                    if et not in ("i64", "u64", "f64"):
+                        self.err(n, "memset through a pointer whose element is not 8 bytes wide")
+                    bd, od = self.pexpr(args[0])
+                    return ("rawcall", f"(.memset 0 .{et} (.var 0) (.var 1))", 2,
+                            [f"(.cast .u64 {self.expr(args[1])})", self.expr(args[2])], [f"({bd}, {od})"])
                 return ("memset", d, self.ptr_ty[d], self.expr(args[1]), self.expr(args[2]))
+            if fname in EXT_KERNELS:
+                kinds, field = EXT_KERNELS[fname]
+                if len(args) != len(kinds):
+                    self.err(n, f"call of the kernel '{fname}': arity")
+                sargs, pargs = [], []
+                for kd, arg in zip(kinds, args):
+                    if kd == "o":
+                        # must be `module->mod.fft64.<field>` of this function's module parameter
+                        a = arg
+                        path = []
+                        while a.get("kind") in ("ImplicitCastExpr", "ParenExpr", "MemberExpr"):
+                            if a.get("kind") == "MemberExpr":
+                                path.append(a.get("name"))
+                            a = a["inner"][0]
+                        if (a.get("kind") != "DeclRefExpr" or a["referencedDecl"]["id"] not in self.module_ids
+                                or path != [field, "fft64", "mod"]):
+                            self.err(n, f"call of the kernel '{fname}': its object is not module->mod.fft64.{field}")
+                    elif kd == "s":
+                        if scalar_ty(arg, "argument") != "u64":
+                            self.err(n, f"call of the kernel '{fname}': scalar argument type")
+                        sargs.append(self.expr(arg))
+                    else:
+                        b, o = self.pexpr(arg)
+                        pargs.append(f"({b}, {o})")
+                return ("extcall", fname, sargs, pargs)
             if fname in VEC_STORE and len(args) == 2:
                 b, o = self.pexpr(args[0])
                 v, lanes = self.vexpr(args[1])
@@ -567,13 +1183,17 @@ class FnTranslator:
                     self.err(n, f"call of '{fname}': arity")
                 sargs, pargs = [], []
                 for kind, arg in zip(callee.params, args):
-                    if kind[0] == "m":
+                    if kind[0] in ("m", "M"):
                         a = arg
                         while a.get("kind") in ("ParenExpr", "ImplicitCastExpr"):
                             a = a["inner"][0]
                         if a.get("kind") != "DeclRefExpr" or a["referencedDecl"]["id"] not in self.module_ids:
                             self.err(n, f"call of '{fname}': module argument is not this function's module parameter")
                         sargs.append(f"(.var {self.slots[a['referencedDecl']['id']]})")
+                        if kind[0] == "M":
+                            if a["referencedDecl"]["id"] not in self.module_m_ids:
+                                self.err(n, f"call of '{fname}': internal: module->m not available")
+                            sargs.append(f"(.var {self.slots[a['referencedDecl']['id']] + 1})")
                     elif kind[0] == "s":
                         if scalar_ty(arg, "argument") != kind[1]:
                             self.err(n, f"call of '{fname}': scalar argument type")
@@ -583,6 +1203,8 @@ class FnTranslator:
                         pargs.append(f"({b}, {o})")
                 self.calls.append(fname)
                 return ("call", fname, sargs, pargs)
+            if fname and fname not in TARGETS:
+                return self.inline_stmt_call(n, fname)
             self.err(n, f"call of '{fname}'")
         if k == "CStyleCastExpr" and n.get("castKind") == "ToVoid":
             c = n["inner"][0]
@@ -606,17 +1228,63 @@ class FnTranslator:
             for d in n["inner"]:
                 if d.get("kind") != "VarDecl":
                     self.err(d, "declaration")
-                if d.get("storageClass") or d.get("tls"):
+                if d.get("tls") or (d.get("storageClass") and not (
+                        d.get("storageClass") == "static" and d["type"]["qualType"].strip().startswith("const"))):
+                    # `static const T x = …` is an ordinary initialised local for the function's behaviour
                     self.err(d, "declaration with a storage class")
                 if "init" not in d or not d.get("inner"):
                     self.err(d, f"declaration of '{d.get('name')}' without initialiser")
+                if is_array_type(qual(d)):
+                    # local array: consecutive slots, every element initialised at the declaration
+                    kind, elem, dims = parse_ctype(qual(d))
+                    if elem != "u64":
+                        self.err(d, "local array of a type other than uint64_t")
+                    exprs = [c for c in d["inner"] if not c.get("kind", "").endswith("Comment")]
+                    if len(exprs) != 1:
+                        self.err(d, "array declaration with unexpected children")
+                    vals = self.flat_init(exprs[0], dims)
+                    b0 = len(self.slot_names)
+                    for i in range(prod(dims)):
+                        self.slot_names.append(f"{d.get('name', '?')}[{i}]")
+                        self.slot_ty[b0 + i] = "u64"
+                    self.arrays[d["id"]] = (b0, prod(dims))
+                    out += [("assign", b0 + i, v) for i, v in enumerate(vals)]
+                    continue
                 if self.is_ptr(d):
                     exprs = [c for c in d["inner"] if not c.get("kind", "").endswith("Comment")]
                     if "init" not in d or len(exprs) != 1:
                         self.err(d, f"pointer declaration of '{d.get('name')}' without initialiser")
-                    if SIZEOF[ptr_elem_ty(qual(d))] % 8 != 0:
-                        self.err(d, "pointer local to an element that is not a whole number of 64-bit cells")
-                    b, o = self.pexpr(exprs[0])
+                    opaque_local = False
+                    try:
+                        opaque_local = parse_ctype(qual(d))[1] == "opaque" and not parse_ctype(qual(d))[2]
+                    except Unsupported:
+                        pass
+                    try:
+                        if opaque_local:
+                            b, o = self.pexpr(exprs[0], True)     # `VEC_ZNX_DFT* a_dft = (VEC_ZNX_DFT*)tmp_space;`
+                        elif strip_cv(strip_ptr_const(qual(d))[:-1].strip()) in ("uint8_t", "unsigned char"):
+                            b, o = self.pexpr(exprs[0], True)     # byte pointer local: scratch, passed on as is
+                        else:
+                            if SIZEOF.get(ptr_elem_ty(qual(d)), 1) % 8 != 0:
+                                raise Unsupported("general path")
+                            b, o = self.pexpr(exprs[0])
+                    except Unsupported:
+                        if opaque_local:
+                            raise
+                        # general path: element `uint32_t`, pointers to arrays, opaque sources
+                        kind, elem, dims = parse_ctype(qual(d))
+                        if elem not in ("u64", "i64", "u32"):
+                            self.err(d, f"pointer local to '{elem}'")
+                        pvv = self.retarget(d, self.pv(exprs[0]), qual(d))
+                        if pvv["k"] != "mem":
+                            self.err(d, "pointer local bound to a local array")
+                        off = pvv["off"]
+                        if pvv["unit"] == 4:
+                            if not (isinstance(off, int) and off % 2 == 0):
+                                self.err(d, "32-bit element pointer local that is not known to be cell aligned")
+                            off = off // 2
+                        b, o = pvv["base"], ostr(off)
+                        self.pslot_elem[d["id"]] = elem
                     s0 = len(self.slot_names)
                     self.pslots[d["id"]] = s0
                     self.slot_names += [d.get("name", "?") + ".buf", d.get("name", "?") + ".off"]
@@ -637,7 +1305,7 @@ class FnTranslator:
             inner = n["inner"]
             if len(inner) not in (2, 3) or any(x in n for x in ("hasInit", "hasVar")):
                 self.err(n, "if statement form")
-            c = self.expr(inner[0])
+            c = self.cond(inner[0])
             t = self.stmt(inner[1]) or ("skip",)
             e = (self.stmt(inner[2]) if len(inner) == 3 else None) or ("skip",)
             return ("ite", c, t, e)
@@ -646,19 +1314,21 @@ class FnTranslator:
             if condvar:
                 self.err(n, "for statement with a condition variable")
             i = (self.stmt(init) if init.get("kind") == "DeclStmt" else self.effect(init)) if init else None
-            c = self.expr(cond) if cond else "(.lit 1)"
+            c = self.cond(cond) if cond else "(.lit 1)"
             b = self.stmt(body) or ("skip",)      # body before inc: slots are numbered in source order
             s = self.effect(inc) if inc else None
             return ("for", i or ("skip",), c, s or ("skip",), b)
         if k == "WhileStmt":
             if len(n["inner"]) != 2:
                 self.err(n, "while statement form")
-            c = self.expr(n["inner"][0])
+            c = self.cond(n["inner"][0])
             return ("while", c, self.stmt(n["inner"][1]) or ("skip",))
         if k == "DoStmt":
             b = self.stmt(n["inner"][0]) or ("skip",)
-            return ("doWhile", b, self.expr(n["inner"][1]))
+            return ("doWhile", b, self.cond(n["inner"][1]))
         if k == "ReturnStmt":
+            if getattr(self, "no_return", 0):
+                self.err(n, "return inside an inlined function")
             if n.get("inner"):
                 # value-returning function: the value goes to the dedicated result slot (`Fn.ret`)
                 if self.ret_slot is None or len(n["inner"]) != 1:
@@ -674,6 +1344,24 @@ class FnTranslator:
         self.err(n, "statement")
 
     # ------------------------------------------------------------------ function
+    def general_param(self, c, q):
+        """pointer parameter to an opaque q120 element or to a precomputation struct: a buffer of 64-bit cells"""
+        try:
+            kind, elem, dims = parse_ctype(strip_ptr_const(q))
+        except Unsupported:
+            return False
+        if kind != "ptr" or dims or not (elem == "opaque" or elem.startswith("struct:")):
+            return False
+        if elem.startswith("struct:"):
+            load_struct(elem[len("struct:"):])
+        pi = len(self.ptr_names)
+        self.ptrs[c["id"]] = pi
+        self.ptr_names.append(c.get("name", "?"))
+        self.ptr_ty.append("u64")
+        self.param_elem[pi] = elem
+        self.params.append(("p", "u64"))
+        return True
+
     def translate(self):
         body = None
         for c in self.decl.get("inner", []):
@@ -690,8 +1378,18 @@ class FnTranslator:
                     self.slot_ty[s] = "u64"
                     self.scalars.append("u64")
                     self.module_ids.add(c["id"])
-                    self.params.append(("m",))
-                elif q.strip().endswith("*"):
+                    if needs_module_m(self.decl):
+                        # `module->m` is read (here or in a callee): a second scalar right after `module->nn`
+                        self.slot_names.append(c.get("name", "?") + "->m")
+                        self.slot_ty[s + 1] = "u64"
+                        self.scalars.append("u64")
+                        self.module_m_ids.add(c["id"])
+                        self.params.append(("M",))
+                    else:
+                        self.params.append(("m",))
+                elif strip_ptr_const(q).endswith("*") and self.general_param(c, q):
+                    pass
+                elif strip_ptr_const(q).endswith("*"):
                     et = ptr_elem_ty(q)
                     if et == "u8":
                         self.byte_ptrs.add(c["id"])
@@ -745,8 +1443,16 @@ def render(s, ind):
         return f"{pad}.vstore {s[1]} {s[2]} {s[3]} {s[4]}"
     if k == "passign":
         return f"{pad}.passign {s[1]} {s[2]} {s[3]}"
+    if k in ("pstore", "pstore32"):
+        return f"{pad}.{k} {s[1]} {s[2]} {s[3]}"
+    if k == "aset":
+        return f"{pad}.aset {s[1]} {s[2]} {s[3]} {s[4]}"
     if k == "call":
         return (f"{pad}.call {s[1]}.body {s[1]}.nslots [{', '.join(s[2])}]\n{pad}  [{', '.join(s[3])}]")
+    if k == "rawcall":
+        return (f"{pad}.call {s[1]} {s[2]} [{', '.join(s[3])}]\n{pad}  [{', '.join(s[4])}]")
+    if k == "extcall":
+        return (f"{pad}.extcall \"{s[1]}\" [{', '.join(s[2])}]\n{pad}  [{', '.join(s[3])}]")
     if k == "seq":
         return f"{pad}.seq\n" + paren(s[1], ind + 2) + "\n" + paren(s[2], ind + 2)
     if k == "ite":
